@@ -16,6 +16,8 @@ EXTENDS YaeUniverse
 S(cp) == EStr(cp)
 Neg(e) == ECall(N_minus, <<e>>)
 Div(a, b) == ECall(N_slash, <<a, b>>)
+Not(e) == ECall(N_bang, <<e>>)
+Mul(a, b) == ECall(N_star, <<a, b>>)
 Add(a, b) == ECall(N_plus, <<a, b>>)
 Gt(a, b) == ECall(N_gt, <<a, b>>)
 Lt(a, b) == ECall(N_lt, <<a, b>>)
@@ -168,8 +170,31 @@ NMapPool == <<Var(N_mm), EMap(<<EPair(EInt(1), S(<<120>>)), EPair(ENum(Half(5)),
               EMap(<<EPair(EInt(1), S(<<97>>)), EPair(EInt(1), S(<<98>>))>>),
               EMap(<<EPair(EInt(10), S(<<97>>)), EPair(EInt(9), S(<<98>>)), EPair(EInt(100), S(<<99>>))>>)>>
 MapOps2 == <<N_eqeq, N_ne>>
+\* IEEE corners: NaN, the infinities and the two zeros through comparisons (plain and negated), max / min (binary and list
+\* forms) and everything that can produce a zero, whose sign is then exposed by 1 / x
+Specials == <<NaNe, PInf, NInf, EInt(1), EInt(0), Neg(EInt(0)), Neg(EInt(2))>>
+ZeroMakers == <<EInt(0), Neg(EInt(0)), Neg(Neg(EInt(0))), Mul(Neg(EInt(1)), EInt(0)), Mul(EInt(0), Neg(EInt(1))), Mul(Neg(EInt(0)), Neg(EInt(1))),
+                Div(EInt(0), Neg(EInt(2))), Div(Neg(EInt(0)), Neg(EInt(2))), Div(EInt(1), NInf), Div(Neg(EInt(1)), PInf),
+                ECall(N_ceil, <<Neg(ENum(Half(1)))>>), ECall(N_round, <<Neg(ENum(Fin(1, 2, 0)))>>), ECall(N_floor, <<Neg(EInt(0))>>),
+                ECall(N_floor, <<ENum(Half(1))>>), ECall(N_abs, <<Neg(EInt(0))>>), Add(Neg(EInt(0)), EInt(0)), Add(Neg(EInt(0)), Neg(EInt(0))),
+                ECall(N_minus, <<Neg(EInt(0)), EInt(0)>>), ECall(N_minus, <<EInt(0), EInt(0)>>), ECall(N_percent, <<Neg(EInt(4)), EInt(2)>>),
+                ECall(N_min, <<EInt(0), Neg(EInt(0))>>), ECall(N_max, <<Neg(EInt(0)), EInt(0)>>), ECall(N_max, <<Neg(EInt(0)), Neg(EInt(0))>>),
+                ECall(N_min, <<EList(<<EInt(0), Neg(EInt(0))>>)>>), ECall(N_max, <<EList(<<Neg(EInt(0)), EInt(0)>>)>>),
+                ECall(N_max, <<EList(<<Neg(EInt(0))>>)>>), ECall(N_caret, <<Neg(EInt(0)), EInt(3)>>)>>
+SpecialProgs ==
+  Prod3(CmpOps, Specials, Specials, LAMBDA f, a, b : Not(ECall(f, <<a, b>>)))
+    \o Prod3(CmpOps, Specials, Specials, LAMBDA f, a, b : ECall(f, <<a, b>>))
+    \o Prod3(<<N_max, N_min>>, Specials, Specials, LAMBDA f, a, b : ECall(f, <<a, b>>))
+    \o Prod3(<<N_max, N_min>>, Specials, Specials, LAMBDA f, a, b : ECall(f, <<EList(<<a, b>>)>>))
+    \o Prod3(<<N_max, N_min>>, Specials, Specials, LAMBDA f, a, b : ECall(f, <<EList(<<EInt(1), a, b>>)>>))
+    \o Map1(ZeroMakers, LAMBDA z : Div(EInt(1), z))
+    \o Map1(ZeroMakers, LAMBDA z : ECall(N_string, <<z>>))
+    \o Map1(ZeroMakers, LAMBDA z : ECall(N_eqeq, <<z, EInt(0)>>))
+    \o Map1(ZeroMakers, LAMBDA z : ESub(Var(N_xs), z))
+    \o Map1(ZeroMakers, LAMBDA z : ECall(N_len, <<EMap(<<EPair(z, EInt(1)), EPair(EInt(0), EInt(2))>>)>>))
 BuiltinProgs(size) ==
   LET NP == NumPool(size) IN
+  SpecialProgs \o
   Concat(Map1(NumOps1, LAMBDA f : Calls1f(f, NP)))
     \o Concat(Map1(NumOps2, LAMBDA f : Calls2f(f, NP, NP)))
     \o Concat(Map1(CmpOps, LAMBDA f : Concat(Map1(EdgePairs, LAMBDA pr : <<ECall(f, <<pr[1], pr[2]>>), ECall(f, <<pr[2], pr[1]>>)>>))))
@@ -262,7 +287,6 @@ LazyProgs ==
          If(ECall(N_ne, <<Var(N_z), EInt(0)>>), ECall(N_percent, <<EInt(7), Var(N_z)>>), EInt(0))>>
 
 (* ------------------------------------------------------------------ C11 / C03: bytecode shapes *)
-Not(e) == ECall(N_bang, <<e>>)
 AndE(a, b) == ECall(N_andand, <<a, b>>)
 OrE(a, b) == ECall(N_oror, <<a, b>>)
 BVars == <<Var(N_b), Var(N_c)>>
@@ -334,16 +358,24 @@ SameObjs3 == <<Obj3(EInt(2), EInt(3), EInt(1), <<3, 1, 2>>), Obj3(EInt(2), EInt(
                Obj3(EInt(2), EInt(3), EInt(4), <<3, 2, 1>>), Obj3(EInt(3), EInt(2), EInt(1), <<1, 3, 2>>)>>
 SameOpts == <<Var(N_mx), Var(N_mj), ESub(Var(N_lo), EInt(0)), ESub(Var(N_lo), EInt(1))>>
 SameNested == <<EList(<<Var(N_ob), Var(N_oba)>>), EList(<<Var(N_oba), Var(N_ob)>>), Var(N_os), EList(<<ObLit, ObaLit>>),
-                EList(<<EList(<<EInt(1)>>), EList(<<>> )>>)>>
+                EList(<<EList(<<EInt(1)>>), EList(<<>> )>>),
+                \* one (empty / absent / non-empty) value occurring twice in the value that is rendered
+                EList(<<Var(N_me), Var(N_me)>>), EList(<<Var(N_me), If(Var(N_c), Var(N_m), Var(N_me))>>), EList(<<Var(N_ys), Var(N_ys)>>),
+                EList(<<Var(N_m), Var(N_m)>>), EList(<<Var(N_mx), Var(N_mx)>>), EList(<<Var(N_w), Var(N_w)>>),
+                EList(<<Var(N_ob), Var(N_ob)>>), EList(<<EList(<<Var(N_me), Var(N_me)>>), EList(<<Var(N_me)>>)>>)>>
+SameAliased == <<EObj(<<EFld(N_a, Var(N_me)), EFld(N_b, Var(N_me))>>), EObj(<<EFld(N_a, Var(N_ys)), EFld(N_b, Var(N_ys))>>),
+                 EObj(<<EFld(N_a, Var(N_me)), EFld(N_b, If(Var(N_c), Var(N_m), Var(N_me)))>>),
+                 EMap(<<EPair(S(<<97>>), Var(N_me)), EPair(S(<<98>>), Var(N_me))>>),
+                 EMap(<<EPair(S(<<97>>), Var(N_ys)), EPair(S(<<98>>), Var(N_ys))>>)>>
 SamePairs(pool, scalar) == Prod2(pool, pool, LAMBDA x, y : SameProg(x, y, scalar))
 SameProgs == SamePairs(SameNums, TRUE) \o SamePairs(SameStrs, TRUE) \o SamePairs(SameBools, TRUE) \o SamePairs(SameTimes, TRUE)
                \o SamePairs(SameLists, FALSE) \o SamePairs(SameMaps, FALSE) \o SamePairs(SameObjs, FALSE) \o SamePairs(SameObjs3, FALSE)
-               \o SamePairs(SameOpts, FALSE) \o SamePairs(SameNested, FALSE)
+               \o SamePairs(SameOpts, FALSE) \o SamePairs(SameNested, FALSE) \o SamePairs(SameAliased, FALSE)
+               \o Map1(SameAliased, LAMBDA x : ECall(N_string, <<x>>))
                \o Map1(SameObjs3 \o SameObjs \o SameMaps \o SameNested, LAMBDA x : ECall(N_string, <<x>>))
                \o Map1(SameObjs3 \o SameObjs \o SameMaps \o SameNested, LAMBDA x : L1(x))
 
 (* ------------------------------------------------------------------ C19: debug evaluation (built-ins only, env E0) *)
-Mul(a, b) == ECall(N_star, <<a, b>>)
 DbgProgs0 == <<
     Gt(Add(EMem(Var(N_ob), N_a), ESub(Var(N_xs), EInt(1))), ECall(N_len, <<Var(N_s)>>)),
     If(Var(N_b), Var(N_n), ESub(Var(N_xs), EInt(99))), If(Var(N_c), ESub(Var(N_xs), EInt(99)), Var(N_p)),
@@ -410,6 +442,14 @@ ConcProgs == <<
 ConcOv(g) == <<BindV(N_n, VNum(NInt(g))), BindV(N_s, VStr(<<115, 48 + (g % 10)>>)),
                BindV(N_xs, IList(TList(TNum), <<VNum(NInt(g)), VNum(NInt(g + 1)), VNum(NInt(10 * g))>>))>>
 
+\* conditionals whose jump targets lie at and just beyond the 16-bit operand range (3 bytes per list element)
+BcBigProgs(size) ==
+  IF size >= 2 THEN <<ECall(N_len, <<If(Var(N_b), BigList(21860), BigList(2))>>), ECall(N_len, <<If(Var(N_c), BigList(21860), BigList(2))>>),
+                      AndE(Gt(ECall(N_len, <<BigList(21860)>>), EInt(0)), Var(N_b)),
+                      ECall(N_len, <<If(Var(N_b), BigList(21700), BigList(2))>>), ECall(N_len, <<If(Var(N_c), BigList(2), BigList(21860))>>)>>
+  ELSE <<ECall(N_len, <<If(Var(N_b), BigList(21860), BigList(2))>>), ECall(N_len, <<If(Var(N_c), BigList(2), BigList(21860))>>),
+         ECall(N_len, <<If(Var(N_b), BigList(6000), BigList(2))>>)>>
+
 (* ------------------------------------------------------------------ C05: registration orders *)
 GArgs == <<Var(N_n), Var(N_s), Var(N_xs), Var(N_ss), Var(N_ys), EList(<<>>), EList(<<EInt(1)>>), Var(N_ob), Var(N_m), Var(N_mx),
            EInt(1), S(<<97>>), EList(<<Var(N_xs)>>)>>
@@ -442,6 +482,13 @@ OptProgs ==
     \o Prod2(Opts, Opts, LAMBDA o, g : ECall(N_get, <<ECall(N_pick, <<o, g>>), EInt(0)>>))
     \o Prod2(Opts, Opts, LAMBDA o, g : ECall(N_union, <<EList(<<o>>), EList(<<g>>)>>))
     \o Prod2(Opts, Opts, LAMBDA o, g : ESub(EMap(<<EPair(S(<<107>>), o), EPair(S(<<106>>), g)>>), S(<<106>>)))
+    \* records whose optional field sits under another name at the same position: never interchangeable
+    \o <<EList(<<Var(N_oq), Var(N_op)>>), Add(EMem(ESub(EList(<<Var(N_oq), Var(N_op)>>), EInt(1)), N_a), EInt(1)),
+         Add(EMem(If(Var(N_c), Var(N_oq), Var(N_op)), N_a), EInt(1)), Add(EMem(If(Var(N_b), Var(N_op), Var(N_oq)), N_b), EInt(1)),
+         ECall(N_abs, <<EMem(ECall(N_pick, <<Var(N_oq), Var(N_op)>>), N_a)>>), ECall(N_eqeq, <<Var(N_op), Var(N_oq)>>),
+         ECall(N_union, <<EList(<<Var(N_op)>>), EList(<<Var(N_oq)>>)>>), EMap(<<EPair(S(<<107>>), Var(N_op)), EPair(S(<<106>>), Var(N_oq))>>),
+         Add(EMem(Var(N_oq), N_a), EInt(1)), Add(EMem(Var(N_op), N_b), EInt(1)), Add(EMem(Var(N_op), N_a), EInt(1)),
+         ECall(N_get, <<EMem(Var(N_op), N_a), EInt(5)>>), ECall(N_get, <<EMem(Var(N_oq), N_b), EInt(5)>>)>>
     \* optionals nested in host data: absent payloads, present payloads
     \o <<ECall(N_get, <<ESub(Var(N_lo), EInt(0)), EInt(9)>>), ECall(N_get, <<ESub(Var(N_lo), EInt(1)), EInt(9)>>),
          ECall(N_get, <<EMem(Var(N_oo), N_a), EInt(9)>>), Add(ECall(N_get, <<EMem(Var(N_oo), N_a), EInt(9)>>), EInt(1)),
